@@ -377,7 +377,7 @@ def run_cbor(run, P, units=('coap_oscore.c',)):
         solve(f, Env(), on_event, None, None, None, key_fn=lambda e: (e.ts.get('cbor'), e.ts.get('over')), on_branch=on_branch, max_envs=64)
         for i, x, l in srcs:
             run.oblige('R-RANGE', True, '%s:cbor-site:%s' % (name, x))
-    run.require(nsites >= (2 if run.cfg == 'base' else 1) or run.fixture_mode, 'R-RANGE: only %d CBOR size sources found on the wire-facing surface' % nsites)
+    run.require_count(nsites >= (2 if run.cfg == 'base' else 1) or run.fixture_mode, 'R-RANGE: only %d CBOR size sources found on the wire-facing surface' % nsites)
 
 
 # ---------------------------------------------------------------------------------------------------------------
@@ -581,4 +581,4 @@ def run_token_ext(run, P, units=('coap_pdu.c',), parsers=('coap_pdu_parse_header
             return None
         n += len(reads)
         solve(f, Env(), on_event, None, keys, R, key_fn=lambda e: tuple(e.intf(u)[:2] for u in sorted(used)))
-    run.require(n >= 2 or run.fixture_mode, 'R-RANGE(token extension): fewer than 2 reads of pdu->token[K] found in the header parser')
+    run.require_count(n >= 2 or run.fixture_mode, 'R-RANGE(token extension): fewer than 2 reads of pdu->token[K] found in the header parser')
